@@ -31,7 +31,23 @@ var plainKeys = []string{"a", "b", "c", "d", "k", "v"}
 var Strs = []string{"", "a", "b", "ab", "ba", "abc", "aa", "abab", "é", "aé", "éa", "aéb", "日本", "a日b", "😀", "a😀b", "é", "�", " a ", "A", "Ab", "10", "2", "x,y,z", "a-b-a", "éé😀éé", "NaN", "Infinity", "-inf", "1e400", "1_0", "0x10", "null", "true"}
 
 // NumTexts is the number palette (JSON spellings).
-var NumTexts = []string{"0", "1", "-1", "2", "3", "4", "5", "10", "1.5", "-2.5", "0.1", "0.2", "0.3", "1.0", "1e0", "10e-1", "0.0", "-0", "100", "1e2", "7", "-7", "9007199254740993", "1e21", "123456789012345678901234567890", "0.5", "2.0", "25E-1", "1E+1", "15E-1", "1E0", "5E-1"}
+var NumTexts = []string{"0", "1", "-1", "2", "3", "4", "5", "10", "1.5", "-2.5", "0.1", "0.2", "0.3", "1.0", "1e0", "10e-1", "0.0", "-0", "100", "1e2", "7", "-7", "9007199254740993", "1e21", "123456789012345678901234567890", "0.5", "2.0", "25E-1", "1E+1", "15E-1", "1E0", "5E-1",
+	// distinct numbers that a binary64 shortcut would merge: neighbours above
+	// 2^53, a difference in the 20th digit, magnitudes beyond 1e308 and below
+	// 1e-308 (all exact in decimal128)
+	"9007199254740992", "9007199254740994", "0.10000000000000000001", "0.10000000000000000002", "1e400", "2e400", "-1e400", "1e-400", "2e-400", "1e-320", "1.0001e-320"}
+
+// CloseNums: groups of distinct numbers whose members a binary64 conversion
+// maps to the same value, in descending order within each group.
+var CloseNums = [][]string{
+	{"9007199254740994", "9007199254740993", "9007199254740992"},
+	{"0.10000000000000000003", "0.10000000000000000002", "0.10000000000000000001", "0.1"},
+	{"3e400", "2e400", "1e400", "1e350"},
+	{"3e-350", "2e-400", "1e-400", "0"},
+	{"-1e350", "-1e400", "-2e400"},
+	{"1.0002e-320", "1.0001e-320", "1e-320"},
+	{"18446744073709551617", "18446744073709551616", "18446744073709551615"},
+}
 
 func Pick[T any](t *rapid.T, label string, xs []T) T {
 	return xs[rapid.IntRange(0, len(xs)-1).Draw(t, label)]
@@ -676,10 +692,22 @@ func (g *G) callHead(cur jv.Val, depth int) ast.Head {
 			args[i] = ast.Ref(g.Expr(jv.VNull(), depth+1))
 			continue
 		}
+		if i == 1 && (name == "pad_left" || name == "pad_right") {
+			// The width is always a literal here, and never one that denotes a
+			// result of more than 70,000 characters: pad_left('x', w) with w
+			// taken from the data can legitimately mean petabytes of padding
+			// (C09 allows cost proportional to the result), which a check
+			// about something else would then report as a hang. Huge widths
+			// are exercised where they are judged: C09 (params) and C02.
+			args[i] = ast.A(ast.Lit(jv.MustParseJSON(Pick(t, "padwidth", padWidths))))
+			continue
+		}
 		args[i] = ast.A(g.argExpr(cur, depth+1))
 	}
 	return ast.Head{Kind: ast.HCall, Name: name, Args: args}
 }
+
+var padWidths = []string{"0", "1", "2", "3", "5", "8", "10", "1.0", "1e1", "20e-1", "40", "255", "256", "65535", "65536", "-1", "-0", "1.5", "-9223372036854775808", "9223372036854775808", "1e30", "1e400", "0.5", "\"3\"", "null", "true", "[2]"}
 
 func (g *G) argExpr(cur jv.Val, depth int) ast.Expr {
 	switch rapid.IntRange(0, 3).Draw(g.T, "argkind") {
